@@ -29,7 +29,7 @@ package redisemu
 //@ assertbefore "if " [C10] table.entry: haskey(cs.watches, watch) && cs.watches[watch] == id
 //@ loop 1 invariant held
 // C10: the watch check and the replay of the queue are one atomic step: both run under the exclusive lock
-//@ requires [C09,C10] exclusive: held
+//@ requires [C09,C10,C08] exclusive: held
 
 //@ func nativeArrayToResp
 //@ trusted value constructor
